@@ -131,6 +131,7 @@ func LiveMPD(a *asset, mpdName string, cfg *ResponseConfig, drmCfg *drm.DrmConfi
 
 	adaptationSets := orderAdaptationSetsByContentType(period.AdaptationSets)
 	var refSegEntries segEntries
+	publishS := 0.0 // publishTime of a SegmentTimeline MPD in seconds: the latest change of any adaptation set
 	for asIdx, as := range adaptationSets {
 		if as.SegmentTemplate != nil {
 			as.SegmentTemplate.EndNumber = nil // Never output endNumber
@@ -272,9 +273,7 @@ func LiveMPD(a *asset, mpdName string, cfg *ResponseConfig, drmCfg *drm.DrmConfi
 			if err != nil {
 				return nil, fmt.Errorf("adjustASForTimelineTime: %w", err)
 			}
-			if asIdx == 0 {
-				mpd.PublishTime = m.ConvertToDateTimeMS(int64(math.Round(calcPublishTime(cfg, se.lsi) * 1000)))
-			}
+			setTimelinePublishTime(mpd, cfg, se, asIdx, &publishS)
 		case timeLineNumber:
 			err := adjustAdaptationSetForTimelineNr(se, as)
 			if err != nil {
@@ -285,9 +284,7 @@ func LiveMPD(a *asset, mpdName string, cfg *ResponseConfig, drmCfg *drm.DrmConfi
 				// first segment has the configured start number (as in findSegMetaFromNr)
 				*as.SegmentTemplate.StartNumber += uint32(cfg.getStartNr())
 			}
-			if asIdx == 0 {
-				mpd.PublishTime = m.ConvertToDateTimeMS(int64(math.Round(calcPublishTime(cfg, se.lsi) * 1000)))
-			}
+			setTimelinePublishTime(mpd, cfg, se, asIdx, &publishS)
 		case segmentNumber:
 			err := adjustAdaptationSetForSegmentNumber(cfg, a, as)
 			if err != nil {
@@ -386,6 +383,16 @@ func periodIsEmpty(p *m.Period) bool {
 		}
 	}
 	return true
+}
+
+// setTimelinePublishTime sets publishTime from the first adaptation set and moves it on when a later
+// adaptation set (another segment grid: subtitles, a second video rate) lists a segment that became available later.
+func setTimelinePublishTime(mpd *m.MPD, cfg *ResponseConfig, se segEntries, asIdx int, publishS *float64) {
+	pt := calcPublishTime(cfg, se.lsi)
+	if asIdx == 0 || (se.lsi.nr >= 0 && pt > *publishS) {
+		*publishS = pt
+		mpd.PublishTime = m.ConvertToDateTimeMS(int64(math.Round(pt * 1000)))
+	}
 }
 
 func lastPeriodStartTime(mpd *m.MPD) (m.DateTime, error) {
